@@ -216,6 +216,35 @@ pub fn check_case(case: &Case, program: &vm_core::Program, trace: &processor::Ex
             return Err(Viol::new("C13:in-span", format!("row {r}: in_span set on a control-flow operation"), cj()));
         }
     }
+    // second observation point: the operation VmStateIterator reports for clock t is the one the
+    // (already validated) decoder columns hold at row t - 1
+    let iter_ops = crate::vm::catch(|| {
+        let mut v: Vec<Option<u8>> = vec![];
+        for st in processor::execute_iter(program, case.stack_inputs(), case.host()) {
+            match st {
+                Ok(s) => v.push(s.op.map(|o| o.op_code())),
+                Err(_) => break,
+            }
+            if v.len() > end + 2 {
+                break;
+            }
+        }
+        v
+    })
+    .map_err(|p| Viol::new(format!("C13:iter-panic:{}", crate::diff::panic_site(&p)), format!("stepping through the program panicked: {p}"), cj()))?;
+    if iter_ops.len() != end + 1 {
+        return Err(Viol::new("C13:iter-stream-length", format!("the step iterator yields {} states for {} executed cycles", iter_ops.len(), end), cj()));
+    }
+    for t in 1..=end {
+        let want = tk::opcode_at(main, t - 1);
+        if iter_ops[t] != Some(want) {
+            return Err(Viol::new(
+                "C13:iter-stream-mismatch",
+                format!("clock {t}: the step iterator reports opcode {:?}, the decoder row holds {:#09b}", iter_ops[t].map(|o| format!("{:#09b}", o)), want),
+                cj(),
+            ));
+        }
+    }
     // the final decoder row carries the program hash
     let ph: [Felt; 4] = program.hash().into();
     for k in 0..4 {
